@@ -503,6 +503,26 @@ def _check_stat(run, repo, world, folder):
                owner2, "_NO_DATA_AVAILABLE") == hid["hasseb"]["idle_status"],
            "idle (NO DATA AVAILABLE) reports must not wake the sender",
            where(mod, fn2))
+    # ... and nothing else is filtered: whether a report wakes the sender
+    # is a question about that report alone.  A test that reads what the
+    # driver remembers (the report held from the previous command) drops the
+    # answer to a query that happens to repeat the previous answer, and the
+    # sender waits for ever.
+    from ..cfg import _walk_no_nested as _wnn
+    remembered = sorted({
+        "self." + x.attr for n in _wnn(fn2) if isinstance(
+            n, (ast.If, ast.While, ast.IfExp, ast.Assert))
+        for x in ast.walk(n.test) if isinstance(x, ast.Attribute) and
+        isinstance(x.value, ast.Name) and x.value.id == "self" and
+        isinstance(x.ctx, ast.Load) and not x.attr.isupper() and
+        not x.attr.startswith("_NO_") and folder.class_attr(
+            owner2, x.attr).__class__.__name__ not in ("int",)})
+    run.ob("R-STAT", HID + ".hasseb._handle_read#only-the-report-decides",
+           not remembered,
+           "whether a report wakes the sender depends on %s, which the "
+           "driver remembers from earlier reports: an answer equal to the "
+           "previous one is taken for a repetition and the query never "
+           "completes" % remembered, where(mod, fn2))
     # ---- daliserver --------------------------------------------------------
     ds = _spec("daliserver.json")
     owner, fn = _fn(world, DS + ".DaliServer", "unpack_response")
